@@ -102,8 +102,8 @@ theorem splitDim_valid {n : Nat} {oldc newc c : List Nat} {gs limit : Nat} (ho :
         · simp at h
         · split at h
           · simp at h; subst h
-            obtain ⟨a1, a2, _, _⟩ := mergeToNumberFull_spec hm hn.2.1
-            exact stage_of_sum (by rw [a1]; exact hn.2.2) a2 hn.pos
+            obtain ⟨a1, a2, _, _⟩ := mergeToNumberFull_spec hm
+            exact stage_of_sum (by rw [a1]; exact hn.2.2) (a2 hn.2.1) hn.pos
           · simp at h; subst h; exact ho
 
 theorem findSplitGo_valid (limit : Nat) (new : List (List Nat)) :
